@@ -235,4 +235,64 @@ example : lineTokens 2 [['H']] = [⟨"REGISTER", "hue", 2⟩] := by decide +kern
 /-- lower-case `h` is not an abbreviation -/
 example : lineTokens 2 [['h']] = [⟨"NAME", "h", 2⟩] := by decide +kernel
 
+/-! ## 3. A quoted string may contain anything but a double quote -/
+
+/-- Content without `"` and without `\`: the text `"cs"` followed by ANY further text `rest`
+(white space, letters, another quote, …) gives the ONE token `LITERAL_STRING cs` and then the
+tokens of `rest`.  Nothing inside `cs` — punctuation, keywords, `#`, digits, white space — is
+seen by the other scanners. -/
+theorem C16_string_free (n f : Nat) (cs rest : List Char) (hq : '"' ∉ cs) (hb : '\\' ∉ cs) :
+    lineTokens n (splitLine (f + 1) ('"' :: (cs ++ '"' :: rest)))
+      = ⟨"LITERAL_STRING", String.ofList cs, n⟩ :: lineTokens n (splitLine f rest) := by
+  rw [splitLine_string f cs rest (scanStringBody_simple '"' cs rest hq hb (by decide)),
+    lineTokens_string n cs hq]
+
+/-- … in particular the line consisting of the literal alone is that single token -/
+theorem C16_string_free_alone (n f : Nat) (cs : List Char) (hq : '"' ∉ cs) (hb : '\\' ∉ cs) :
+    lineTokens n (splitLine (f + 1) ('"' :: (cs ++ ['"'])))
+      = [⟨"LITERAL_STRING", String.ofList cs, n⟩] := by
+  rw [C16_string_free n f cs [] hq hb, splitLine_nil]; rfl
+
+/-- … and followed by a blank and more text, as asked for in the property -/
+theorem C16_string_free_then_space (n f : Nat) (cs rest : List Char) (hq : '"' ∉ cs)
+    (hb : '\\' ∉ cs) :
+    lineTokens n (splitLine (f + 2) ('"' :: (cs ++ '"' :: ' ' :: rest)))
+      = ⟨"LITERAL_STRING", String.ofList cs, n⟩ :: lineTokens n (splitLine f rest) := by
+  rw [C16_string_free n (f + 1) cs (' ' :: rest) hq hb]
+  rfl
+
+/-- Backslashes: content without `"` but with arbitrary backslashes (also at the end) is still
+ONE string token carrying exactly the content, PROVIDED no further `"` follows on the line.
+(If one does, a content ending in a backslash makes the regular expression treat the closing
+quote as escaped and the literal runs on to the LAST such quote — `(?<=\\)"`; see the example
+below.  The manual's "any characters other than a double quote" is therefore true of a line
+with one string, not of every line.) -/
+theorem C16_string_backslash_last (n f : Nat) (cs rest : List Char) (hq : '"' ∉ cs)
+    (hr : '"' ∉ rest) :
+    lineTokens n (splitLine (f + 1) ('"' :: (cs ++ '"' :: rest)))
+      = ⟨"LITERAL_STRING", String.ofList cs, n⟩ :: lineTokens n (splitLine f rest) := by
+  rw [splitLine_string f cs rest (scanStringBody_last '"' cs rest hq hr),
+    lineTokens_string n cs hq]
+
+/-- `#` inside a string literal is not a comment, and what follows the literal is still lexed -/
+theorem C16_hash_in_string (n f : Nat) (a b rest : List Char) (ha : '"' ∉ a) (hb : '"' ∉ b)
+    (ha' : '\\' ∉ a) (hb' : '\\' ∉ b) :
+    lineTokens n (splitLine (f + 1) ('"' :: (a ++ '#' :: b ++ '"' :: rest)))
+      = ⟨"LITERAL_STRING", String.ofList (a ++ '#' :: b), n⟩ :: lineTokens n (splitLine f rest) := by
+  have := C16_string_free n f (a ++ '#' :: b) rest (by simp [ha, hb]) (by simp [ha', hb'])
+  simpa using this
+
+example : lineTokens 1 (splitLine 99 "\"[ - { # 12:30 end\"".toList)
+    = [⟨"LITERAL_STRING", "[ - { # 12:30 end", 1⟩] := by decide +kernel
+example : lineTokens 1 (splitLine 99 "define x \"a#b\" # c \"d\"".toList)
+    = [⟨"DEFINE", "define", 1⟩, ⟨"NAME", "x", 1⟩, ⟨"LITERAL_STRING", "a#b", 1⟩] := by
+  decide +kernel
+/-- a content ending in a backslash, alone on its line: one string -/
+example : lineTokens 1 (splitLine 99 "\"C:\\dir\\\" x".toList)
+    = [⟨"LITERAL_STRING", "C:\\dir\\", 1⟩, ⟨"NAME", "x", 1⟩] := by decide +kernel
+/-- … but with a second literal on the line the two are joined (why `C16_string_backslash_last`
+needs `'"' ∉ rest`) -/
+example : lineTokens 1 (splitLine 99 "\"a\\\" \"b\"".toList)
+    = [⟨"LITERAL_STRING", "a\" ", 1⟩, ⟨"NAME", "b", 1⟩, ⟨"ERROR", "\"", 1⟩] := by decide +kernel
+
 end Bardolph.Lex
